@@ -552,6 +552,29 @@ def _(d):
     return [_fd(d), _field(d)], lambda f, t: accumulate(f, t, nprint=0)
 
 
+def _field_bounded(d):
+    """Field with a declared valid range and cells outside it (no-data
+    markers written after the range was set)."""
+    g = Grid("tb", 4, 4, dtype=np.float64, nodata=-9999.)
+    g.data = np.abs(np.resize(d.obs, 16).reshape(4, 4)) + 1.0
+    g.mindata = 0.
+    g.maxdata = 1e4
+    g[3] = -9999.
+    g[9] = 5e4
+    return g
+
+
+@spec("grid.accumulate_bounded_field", "gis")
+def _(d):
+    return [_fd(d), _field_bounded(d)], \
+        lambda f, t: accumulate(f, t, nprint=0)
+
+
+@spec("grid.slope_bounded_field", "gis")
+def _(d):
+    return [_fd(d), _field_bounded(d)], lambda f, t: slope(f, t, nprint=0)
+
+
 @spec("grid.accumulate_default", "gis")
 def _(d):
     return [_fd(d)], lambda f: accumulate(f, nprint=100)
